@@ -41,7 +41,15 @@ Definition c10_tree (alg k d : nat) (f : list QcPoly) (shape : ptree nat)
   show_vecs (pytree_expand (fun v i t' => c10_alg alg v i t' num) (mkVF k d f) shape inits t).
 
 (* ================================================================= C11 *)
-From PD Require Import Model.JetLift Run.GenRun.
+From PD Require Import Model.JetLift.
+
+(* plain (A, b, Q) encoding of a conditional, as Run/GenRun.v enc_cond (copied so that this
+   file does not depend on GenRun.vo) *)
+Definition flat_mat_q (n m : nat) (A : @mat Qc) : list Qc :=
+  flat_map (fun i => map (mget A i) (seq 0 m)) (seq 0 n).
+Definition enc_cond_q (nin nout c : nat) (K : @cond Qc) : list Qc :=
+  let P := c_plain nin nout c K in
+  flat_mat_q nout nin (c_A P) ++ flat_mat_q nout c (c_b P) ++ flat_mat_q nout nout (c_Q P).
 
 Definition QcJF := @jetfun Qc.
 Definition jfp (k d : nat) (ps : list QcPoly) : QcJF := jf_of_polys k d ps.
@@ -72,12 +80,15 @@ Definition c11_res_from_lifted (k d : nat) (f : list QcPoly) (lift_by : Z)
            (coords : list (list Qc)) (t : Qc) : list Z :=
   show_vecs (residual_from_lifted (jfp k d f) lift_by coords t).
 
-(* residual_from_stack(r1.jet_lift(m1), r2.jet_lift(m2), ...): parts = (k, polys, lift_by);
+(* residual_from_stack(r1.jet_lift(m1), r2, ...): parts = (k, polys, Some lift_by | None = unlifted);
    output = num_tcoeffs_in_args of the stack followed by the flattened values *)
-Definition c11_stack (d : nat) (parts : list (nat * list QcPoly * Z)) (coords : list (list Qc))
+Definition c11_stack (d : nat) (parts : list (nat * list QcPoly * option Z)) (coords : list (list Qc))
            (t : Qc) : list Z :=
-  let rs := map (fun p : nat * list QcPoly * Z =>
-                   lifted_part (jfp (fst (fst p)) d (snd (fst p))) (snd p)) parts in
+  let rs := map (fun p : nat * list QcPoly * option Z =>
+                   match snd p with
+                   | Some m => lifted_part (jfp (fst (fst p)) d (snd (fst p))) m
+                   | None => plain_part (jfp (fst (fst p)) d (snd (fst p)))
+                   end) parts in
   let st := residual_from_stack rs in
   Z.of_nat (rf_k st) :: show_vecs (rf_eval st coords t).
 
@@ -94,5 +105,5 @@ Definition c11_linearize (kind lin q d k : nat) (f : list QcPoly) (damp2 : Qc)
            | BlockDiag => map (fun a => mkN (mk (S q) 1 (fun i _ => cf i a)) []) (seq 0 d)
            end in
   let l := match lin with 0 => TS0 | _ => TS1 end in
-  showQc (Some (flat_map (enc_cond (sh_N s) (sh_nout s) (sh_c s))
+  showQc (Some (flat_map (enc_cond_q (sh_N s) (sh_nout s) (sh_c s))
                          (linearize s (mkOde k f) l damp2 m t))).
